@@ -124,7 +124,7 @@ def check(an: Analysis) -> None:
             ob.fail(aexit, c, "the exit fan-out skips, filters or repeats disposables")
         if not isinstance(parent(c), ast.Await):
             ob.fail(aexit, c, "the exit gather is not awaited")
-        w = gx.must_pass(lambda n: n.kind == "call" and n.ast is c, exits=("exit-return", "exit-raise"), raising=lambda n: False)
+        w = gx.must_pass(lambda n: n.kind == "call" and n.ast is c, exits=("exit-return", "exit-raise"), raising=lambda n: False, skip_edge=scenario(gx, with_locals(dx, nonempty_env)))
         if w is not None:
             ob.fail(aexit, c, "a path through Disposables.__aexit__ skips the exit fan-out", CFG.show_path(w))
     gi = an.cfg(init_)
@@ -342,7 +342,10 @@ def check(an: Analysis) -> None:
 
     # ------------------------------------------------------------------ C08.8 all yielded state flows out
     ob = an.ob("C08.8", "K5", "the collection returned by Disposables.__aenter__ is the flattening of every _initialize result (none dropped on the success path)", [f"{D}.__aenter__"])
-    rets = [n for n in aenter.own_nodes() if isinstance(n, ast.Return)]
+    from ..kinds import Scenario as _ScnNE
+
+    ne_reach = _ScnNE(ge, de, nonempty_env).reach
+    rets = [n.ast for n in ge.nodes if n.kind == "return" and n.id in ne_reach]  # (with no disposables an early `return []` is the same flattening)
     if not rets:
         ob.fail(aenter, None, "__aenter__ returns nothing: state yielded by disposables is lost")
     from ..domains import comp_of
@@ -514,6 +517,20 @@ def _is_entered_subset(an: Analysis, fi: FunctionInfo, d: Deps, sh: CompShape, d
     if zipped(it) and ok_filter and neg:
         names = sh.target_names()
         return len(names) == 2
+    # for index, disposable in enumerate(self._disposables) if not isinstance(results[index], BaseException)
+    it_e = unwrap(it)
+    names_e = sh.target_names()
+    if isinstance(it_e, ast.Call) and is_name(it_e.func, "enumerate") and len(it_e.args) == 1 and dotted(it_e.args[0]) == "self._disposables" and len(names_e) == 2 and sh.filtered:
+        ifs_ = getattr(sh, "_ifs", [])
+        if len(ifs_) == 1:
+            t_ = ifs_[0]
+            neg_ = False
+            while isinstance(t_, ast.UnaryOp) and isinstance(t_.op, ast.Not):
+                neg_ = not neg_
+                t_ = t_.operand
+            a0_ = t_.args[0] if isinstance(t_, ast.Call) and is_name(t_.func, "isinstance") and len(t_.args) == 2 else None
+            if neg_ and isinstance(a0_, ast.Subscript) and is_name(a0_.slice, names_e[0]) and "call:asyncio.gather" in d.origins(a0_.value) and (dotted(t_.args[1]) or "").endswith("BaseException"):
+                return True
     if depth > 0 and not sh.filtered:
         inner = comp_of(d, it)
         if inner is not None and not inner.is_dict:
@@ -553,10 +570,22 @@ def _error_collections(an: Analysis, fi: FunctionInfo, d: Deps, gather: ast.Call
 
     names = []
     seen = set()
+    cands: list[ast.Name] = []
     for n in fi.own_nodes():
         if isinstance(n, (ast.Assign, ast.AnnAssign)) and n.value is not None:
-            t = n.targets[0] if isinstance(n, ast.Assign) else n.target
-            if not isinstance(t, ast.Name) or t.id in seen:
+            t0 = n.targets[0] if isinstance(n, ast.Assign) else n.target
+            if isinstance(t0, ast.Name):
+                cands.append(t0)
+        elif isinstance(n, ast.NamedExpr):
+            cands.append(n.target)
+        elif isinstance(n, ast.Match) and isinstance(unwrap(n.subject), (ast.ListComp, ast.GeneratorExp)):
+            # `match [<errors>]: ... case exceptions:` - whole-subject captures name the collection
+            for case in n.cases:
+                if isinstance(case.pattern, ast.MatchAs) and case.pattern.pattern is None and case.pattern.name:
+                    cands.append(ast.Name(id=case.pattern.name, ctx=ast.Load()))
+    for t in cands:
+        if True:
+            if t.id in seen:
                 continue
             sh = comp_of(d, ast.Name(id=t.id, ctx=ast.Load()))
             if sh is None or sh.is_dict or getattr(sh, "flatten", False):
@@ -573,8 +602,27 @@ def _error_collections(an: Analysis, fi: FunctionInfo, d: Deps, gather: ast.Call
     return names
 
 
+_SOME_DISPOSABLES = (object(),)
+
+
+def nonempty_env(e: ast.AST):
+    """Situation "at least one disposable was given" (with none, enter and exit have nothing to do and may leave early)."""
+    if dotted(e) == "self._disposables":
+        return _SOME_DISPOSABLES
+    return NOVALUE
+
+
 def _len_env(d: Deps, names: list[str], n: int):
     def env(e: ast.AST):
+        if dotted(e) == "self._disposables":
+            return _SOME_DISPOSABLES
+        if isinstance(e, (ast.ListComp, ast.GeneratorExp)):
+            # the collection of failures written in place (`match [exc for exc in results if isinstance(exc, BaseException)]:`)
+            sh_ = CompShape(e)
+            if sh_.ok and not sh_.is_dict and not sh_.flatten:
+                ok_, neg_ = is_exc_filter(sh_)
+                if ok_ and not neg_ and "call:asyncio.gather" in d.origins(sh_.iter):
+                    return [0] * n
         if isinstance(e, ast.Name) and e.id in names:
             return [0] * n
         if isinstance(e, ast.Call) and is_name(e.func, "len") and len(e.args) == 1 and isinstance(e.args[0], ast.Name) and e.args[0].id in names:
